@@ -252,6 +252,32 @@ pub fn op(st: &mut ChunkSt, toks: &[&str]) -> Option<String> {
             else if ea != eb { format!("! FAIL partitions-disagree-on-error {:?} vs {:?}", ea, eb) }
             else { format!("! ok {} {}", ga.len(), ea.unwrap_or("-".into())) }
         }
+        // C03, allocation clause, measured where it is stated: a consumer that KEEPS every message it is handed
+        // (as the sessions' result vectors and any queueing application do) never holds more than a small
+        // constant multiple of the bytes received plus one maximum-size message
+        ["!des.alloc", data] => {
+            let data = parse_bytes(data)?;
+            let base = crate::alloc::begin();
+            let mut des = ChunkDeserializer::new();
+            let mut held = vec![];
+            let mut input: &[u8] = &data;
+            let mut err = String::from("-");
+            loop {
+                match des.get_next_message(input) {
+                    Err(e) => { err = de_kind(&e); break; }
+                    Ok(None) => break,
+                    Ok(Some(p)) => {
+                        if p.type_id == 1 { if let Ok(RtmpMessage::SetChunkSize { size }) = p.to_rtmp_message() { let _ = des.set_max_chunk_size(size as usize); } }
+                        held.push(p);
+                        input = &[];
+                    }
+                }
+            }
+            let peak = crate::alloc::peak_over(base);
+            let bound = 8 * data.len() + (16 << 20) + (1 << 20);
+            if peak > bound { format!("! FAIL holding {} message(s) decoded from {} bytes takes {} bytes, more than 8 x received + one 16 MiB message + 1 MiB = {}", held.len(), data.len(), peak, bound) }
+            else { format!("! ok {} {}", held.len(), err) }
+        }
         // the reference decoder itself, so that the Lean specification decoder can be compared with it
         ["spec.feed", data] => {
             let data = parse_bytes(data)?;
